@@ -40,6 +40,16 @@ CHECKS = {
              "is called, and a no-follow snapshot of the whole sandbox before/after is judged by TLC (FsRemoveTrace.tla); seeded random larger trees go through the same judgement.",
         note="Trusted: TLC, the Lstat-based snapshot, os.Symlink; link scenarios on the OS backend only.",
         technique="TLA+ reference semantics + TLC exhaustive scenario enumeration; replay on real filesystems; TLC trace validation"),
+    "C07": dict(
+        category="model_checking", design_ref="DESIGN.md 5/C07",
+        text="ArchiveRoundTrip.tla models a tree, the entries Zip writes for it (one per directory and per file, relative names) and what Unzip / the read-only views make of them; TLC checks "
+             "Unzip(Zip(t)) = t, list = created, view = tree on every scenario (shape x name classes x size x time class; without directory entries the round trip must fail) and emits the "
+             "scenarios. Each is materialised on both backends; the real Zip, Unzip (with and without limits), NewZipFileSystem and NewTarFileSystem run on it and the dumps (path, kind, size, "
+             "hash, mtime), the returned lists and the handle balance are judged by TLC (ArchiveTrace.tla), as are seeded larger trees. ClosableFs.tla is the open/closed state machine of the "
+             "views; TLC emits every program of <= 4 steps over {read, mutate, close}; each step is expanded to every concrete FS method of its class on both views and ClosableTrace.tla "
+             "re-runs the state machine over the recorded results.",
+        note="Trusted: TLC, archive/tar (the tar archives are written by the harness), the harness's own directory dump.",
+        technique="TLA+ round-trip and closable-view specifications + TLC scenario / program enumeration; replay on real archives and views; TLC trace judgement"),
     "C08": dict(
         category="model_checking", design_ref="DESIGN.md 5/C08",
         text="FsExclude.tla defines matching of a small regular-expression AST on names (recursively, TLC evaluating string operators) and from it MustSkip (a component fully matched) and "
